@@ -8,10 +8,10 @@
 (* reproduced by the real event loop, which runs the client events of one     *)
 (* instant before anything created during the run; used for the replay graph. *)
 EXTENDS MultiLeader
-CONSTANTS N, NK, MaxW, MaxAE, BurstOnly
+CONSTANTS N, NK, MaxW, MaxAE, BurstOnly, Mode
 VARIABLES s, nae, lastw
 
-Init == s = MInit(N, NK) /\ nae = 0 /\ lastw = FALSE
+Init == s = MInit(N, NK, Mode) /\ nae = 0 /\ lastw = FALSE
 
 SameInstantOK == ~BurstOnly \/ lastw \/ \A w \in 1..Len(s.wr) : s.wr[w].ts # s.clock
 
